@@ -12,6 +12,7 @@ pub struct SynError { _p: () }
 
 pub mod syn {
     pub type Result<T> = core::result::Result<T, super::SynError>;
+    pub type Error = super::SynError;
 }
 
 /// marker for `Token![,]` (R11)
